@@ -268,10 +268,12 @@ def main():
         plan.append(('E1', ['F05', 'F07'], [IGN, IGN | CFGF['COMMENTS']], 5))
         plan.append(('E1', ['F09'], [IGN], 6))      # undeclared names inside a free-form section: skipped, not collected
         plan.append(('E1s', core, [0], 4))          # values that come from the environment
+        plan.append(('E1', core, [CFGF['KEYSTRVAL'], CFGF['KEYSTRVAL'] | CFGF['NOCASE']], 4))      # a context that is free-form itself: undeclared names at the top level are keys
         plan.append(('E1', fam_F, [0], 5))
         plan.append(('E1', core, [0], 6))
     else:
         plan.append(('E1s', core, [0], 5))
+        plan.append(('E1', core, [CFGF['KEYSTRVAL'], CFGF['KEYSTRVAL'] | CFGF['NOCASE']], 6))
         plan.append(('E1', fam_F + fam_O, [IGN], 5))
         plan.append(('E1', ['F05', 'F07', 'F09'], [IGN, IGN | CFGF['COMMENTS']], 7))
         plan.append(('E1', fam_F + fam_O, CTXFLAGS, 5))
